@@ -4,6 +4,7 @@ from __future__ import annotations
 import ast
 from typing import Dict, Optional, Set
 
+from .. import cfg as cfgmod
 from ..astutil import alias_map, call_name, expand_alias, kwarg
 from ..index import AnalysisError, AnchorVanished, norm, short, walk_local
 from .common import borrow
@@ -212,7 +213,7 @@ def r2_4(ctx):
 
     # loop targets: for start, _end, word in words(text): start/_end are character offsets
     for x in walk_local(f.node):
-        if isinstance(x, ast.For) and call_name(x.iter) == "words" and isinstance(x.target, ast.Tuple) and len(x.target.elts) == 3:
+        if isinstance(x, ast.For) and isinstance(x.iter, ast.Call) and call_name(x.iter) == "words" and isinstance(x.target, ast.Tuple) and len(x.target.elts) == 3:
             unit[norm(x.target.elts[0])] = "chars"
             unit[norm(x.target.elts[1])] = "chars"
     for _ in range(3):
@@ -238,20 +239,39 @@ def r2_4(ctx):
             ctx.check(u(x.args[0]) == "chars", f.fq, norm(x), f"{m.relpath}:{x.lineno}", "a character offset is recorded as break position",
                       f"`{norm(x)}` records `{norm(x.args[0])}` ({u(x.args[0]) or 'unknown unit'}) as a break offset; offsets index characters of the text")
     ctx.floor(n, 5, "unit-sensitive sites in divide_line")
-    # chop only for over-wide words under fold
-    chops = [c for c in walk_local(f.node) if isinstance(c, ast.Call) and call_name(c) == "chop_cells"]
-    ctx.check(len(chops) == 1, f.fq, "chop_cells", f.where, "one fold site", f"{len(chops)} chop_cells calls in divide_line")
-    for c in chops:
-        guards = []
-        cur = m.parent_of.get(c)
-        while cur is not None and cur is not f.node:
-            if isinstance(cur, ast.If):
-                guards.append(norm(cur.test))
-            cur = m.parent_of.get(cur)
-        ok = "fold" in guards and "word_length > width" in guards and "line_position + word_length > width" in guards
-        ctx.check(ok, f.fq, short(c), f"{m.relpath}:{c.lineno}", "a word is chopped only when it alone is wider than the width, under fold", f"chop_cells is called under {guards}: words are broken although they would fit on a line of their own")
-        pos = kwarg(c, "position")
-        ctx.check(len(c.args) >= 2 and norm(c.args[0]) == "word" and norm(c.args[1]) == "width" and pos is not None and norm(pos) == "line_position", f.fq, short(c), f"{m.relpath}:{c.lineno}",
+    # chop only for over-wide words under fold (CFG branch facts at the call site, so guard clauses / nested ifs / a flag
+    # variable are the same thing; a module-level helper holding the chop_cells call is followed)
+    from ..astutil import inline as _inline, single_defs as _single_defs, substitute_call
+    from ..yieldpaths import canon_test
+    sites = []
+    for c in walk_local(f.node):
+        if isinstance(c, ast.Call) and call_name(c) == "chop_cells":
+            sites.append((c, c))
+        elif isinstance(c, ast.Call) and isinstance(c.func, ast.Name) and c.func.id in m.functions and m.functions[c.func.id] is not f:
+            h = m.functions[c.func.id]
+            inner = [x for x in walk_local(h.node) if isinstance(x, ast.Call) and call_name(x) == "chop_cells"]
+            if len(inner) == 1:
+                bound = substitute_call(h.node, c, inner[0])
+                if bound is not None:
+                    sites.append((c, bound))
+    ctx.check(len(sites) == 1, f.fq, "chop_cells", f.where, "one fold site", f"{len(sites)} chop_cells call sites reachable from divide_line")
+    g = cfgmod.build(f.node)
+    sd = _single_defs(f.node)
+    for site, chop in sites:
+        st = site
+        while not isinstance(st, ast.stmt):
+            st = m.parent_of[st]
+        facts = {}
+        for nid in g.nodes_of(st):
+            for t, v in g.branch_facts(nid):
+                for a, tv in canon_test(_inline(t, sd), v):
+                    facts[a] = tv
+        # the word's own width X:  `X > width` and `line_position + X > width` must both be known true, with fold
+        alone = [k[: -len(" > width")] for k, v in facts.items() if v is True and k.endswith(" > width") and not k.startswith("line_position + ")]
+        ok = facts.get("fold") is True and any(facts.get(f"line_position + {x} > width") is True and "cell_len(" in x for x in alone)
+        ctx.check(ok, f.fq, short(site), f"{m.relpath}:{site.lineno}", "a word is chopped only when it alone is wider than the width, under fold", f"chop_cells is reached under {sorted(k for k, v in facts.items() if v)} / not {sorted(k for k, v in facts.items() if not v)}: words are broken although they would fit on a line of their own (or without fold)")
+        pos = kwarg(chop, "position") or (chop.args[2] if len(chop.args) > 2 else None)
+        ctx.check(len(chop.args) >= 2 and norm(chop.args[0]) == "word" and norm(chop.args[1]) == "width" and pos is not None and norm(pos) == "line_position", f.fq, short(chop), f"{m.relpath}:{site.lineno}",
                   "the word is chopped to the width, continuing at the current line position", "chop_cells is not called as chop_cells(word, width, position=line_position)")
     # words(): consecutive matches, each anchored where the previous one ended
     from ..astutil import inline, single_defs
